@@ -46,7 +46,7 @@ TECHNIQUE = "differential stateful PBT: same Hypothesis-generated history execut
 
 OPS_W = (
     ["edge"] * 5 + ["v1"] * 3 + ["v2"] * 3 + ["link"] * 2 + ["unlink"] * 2
-    + ["al", "rl", "av", "uf"] + ["newv", "adj", "bulk"] + ["flag"] * 3 + ["query"] * 5 + ["repickle", "dumponly"]
+    + ["al", "rl", "av", "uf"] + ["newv", "adj", "bulk", "bulk_big"] + ["flag"] * 3 + ["query"] * 5 + ["queryn"] * 2 + ["repickle", "dumponly"]
 )
 
 # coverage-guided extra engine (atheris): executions per fuzzer process, 16 processes
@@ -114,6 +114,14 @@ def run_ops(w, ops, flagged):
             continue
         if name == "query":
             outs.append(battery.evaluate(w.vs, w.ls))
+            flags.append(bool(Vertex.NEIGHBOR_CACHING))
+            between.append(cur)
+            cur = []
+            continue
+        if name == "queryn":
+            # a partial query: only the first n questions about one vertex (the number of answers a cache holds
+            # for a vertex when the next mutation arrives takes every value, not only multiples of the battery)
+            outs.append(battery.partial(w.vs, w.ls, r[1], r[2]))
             flags.append(bool(Vertex.NEIGHBOR_CACHING))
             between.append(cur)
             cur = []
@@ -202,7 +210,7 @@ def check_fresh(case, both=True):
 
     prefix, suffix = split_case(case)
     a_outs, *_ = run_history(case, flagged=False)
-    nq_prefix = sum(1 for o in case["ops"][: (len(case["ops"]) * (1 + case["nv"] % 3)) // 4] if o[0] == "query")
+    nq_prefix = sum(1 for o in case["ops"][: (len(case["ops"]) * (1 + case["nv"] % 3)) // 4] if o[0] in ("query", "queryn"))
     exp = a_outs[nq_prefix:]
     if both:
         a = fresh.run_jobs([dict(blob=None, flag=True, want=["c05prefix"], case=case, ops=prefix)])[0]
@@ -301,7 +309,7 @@ def extra_phase(tier, seed, deadline):
         prefix, suffix = ops[:cut], ops[cut:]
         try:
             a_outs, *_ = run_history(case, flagged=False)
-            nq_prefix = sum(1 for o in prefix if o[0] == "query")
+            nq_prefix = sum(1 for o in prefix if o[0] in ("query", "queryn"))
             Vertex.NEIGHBOR_CACHING = True
             w = World(case["nv"], 0, case.get("vcls"))
             run_ops(w, [o for o in prefix if o[0] != "flag"], flagged=True)   # ends with a warming battery
